@@ -1084,6 +1084,11 @@ func loopVarAddress(c *engine.Ctx) {
 						if !kept {
 							return true
 						}
+						// kept in a variable of this very iteration that is only used to select fields: a name for
+						// a part of the loop variable, gone with the iteration
+						if engine.AddrOnlySelected(info, body, u) {
+							return true
+						}
 					}
 					o.Eval(1)
 					o.Fail(&engine.Violation{Key: fi.Name() + "|&" + id.Name + " of a loop variable escapes its iteration", Pos: c.P.Pos(u.Pos()), Func: fi.Name(),
